@@ -3,7 +3,7 @@
    render both.  Output of a case: model lines, then "#SPEC", then oracle lines (or one line
    "EXEMPT <reason>" when the oracle does not apply, e.g. a schema that is not well-formed). *)
 From GT Require Export Sexp Render.
-From GTS Require Import SpecLin Annot WfSchema.
+From GTS Require Import SpecLin Annot WfSchema SpecValid.
 Local Open Scope string_scope.
 
 Definition render_annot (s : sdocument) (d : document) : list string :=
@@ -28,7 +28,14 @@ Definition run_case (s : sdocument) (op : string) (args : list sexp) : list stri
     match args with
     | [d; SL (Atom _ :: codes)] =>
         match d_document d, d_list (fun x => match x with Atom a => rule_of_code a | _ => None end) codes with
-        | Some d, Some plan => render_outcome (validate s d plan)
+        | Some d, Some plan =>
+            List.app (render_outcome (validate s d plan))
+                     (spec_section s
+                        (List.app
+                           (map (fun r => "V " ++ code_of r ++ " " ++
+                                          (if rule_in_scope r s d then (if violated r s d then "1" else "0") else "X"))
+                                all_rules)
+                           ["VALID " ++ (if spec_valid s d then "1" else "0")]))
         | _, _ => ["BADINPUT"]
         end
     | _ => ["BADINPUT"]
